@@ -211,6 +211,44 @@ def run(ctx, spec):
                 ctx.viol("C18.masks", case, f"mask_from_subseq on a sequence of {L} elements, positions {idx[:8]}: got mask {got_mask:#x}, expected {mask:#x}")
             if got_sub != sub:
                 ctx.viol("C18.masks", case, f"subseq_from_mask on a sequence of {L} elements, positions {idx[:8]}: got {got_sub[:8]}, expected {sub[:8]}")
+        # history: the SAME list object is used as the sequence, edited in place (reversed, shuffled, an element replaced;
+        # same length), and used again - every answer must be exact for the sequence as it is at that moment
+        hrng = ctx.rng("inplace")
+        nhist = 0
+        for _ in range(200 if ctx.tier == "quick" else 3000):
+            L = hrng.randint(2, 9)
+            parent = [f"g{i}" for i in range(L)] if hrng.random() < 0.6 else list(range(L))
+            hrng.shuffle(parent)
+            edits = []
+            for step in range(3):
+                idx = sorted(hrng.sample(range(L), hrng.randint(1, L)))
+                sub = [parent[i] for i in idx]
+                mask = sum(1 << i for i in idx)
+                case = {"kind": "mask", "parent": list(parent), "mask": mask, "history": "same list object used before, then edited in place", "edits": list(edits)}
+                try:
+                    got_mask = SUB.mask_from_subseq(sub, parent)
+                    got_sub = list(SUB.subseq_from_mask(mask, parent))
+                    comp = SUB.subseq_complete(parent)
+                except Exception as exc:  # noqa: BLE001
+                    ctx.viol("C18.masks", case, f"raised {type(exc).__name__}: {exc}")
+                    break
+                cnt += 2
+                nhist += 1
+                if got_mask != mask or got_sub != sub or comp != (1 << L) - 1:
+                    ctx.viol("C18.masks", case, f"after in-place edits {edits} of the sequence object: mask_from_subseq({sub}, {parent}) = {got_mask:#b} (expected {mask:#b}), subseq_from_mask gives {got_sub}")
+                    break
+                kind = hrng.choice(["reverse", "shuffle", "replace", "swap"])
+                if kind == "reverse":
+                    parent.reverse()
+                elif kind == "shuffle":
+                    hrng.shuffle(parent)
+                elif kind == "replace":
+                    parent[hrng.randrange(L)] = f"new{step}" if isinstance(parent[0], str) else 100 + step
+                else:
+                    i, j = hrng.randrange(L), hrng.randrange(L)
+                    parent[i], parent[j] = parent[j], parent[i]
+                edits.append(kind)
+        ctx.count("mon.inplace_sequences", nhist)
         ctx.count("mon.long_sequences", nlong)
         ctx.count("evaluations", cnt)
         ctx.count("mon.mask_roundtrip", cnt)
